@@ -39,7 +39,8 @@ def check(repo, tier="quick"):
     rule_e(res, repo, m)
     rule_f(res, m)
     rule_g(res, m)
-    res.floor("C22.g", 3)
+    rule_axes(res, m)
+    res.floor("C22.g", 5)
     res.floor("C22.f", 8)
     res.floor("C22.e", 9)
     res.floor("C22.a", 4)
@@ -447,3 +448,61 @@ def rule_g(res, m):
                 ok = w_ok and norm(k) in [norm(ast.parse(f).body[0].value) for f in forms]
                 found = "repeat count %s for %d ramp rows" % (short(k, 40), n_rows)
     res.check(ok, "C22.g", "linear_ramps:bands-cover-the-frame", where, "linear_ramps must repeat its N ramp rows ceil(frame_height / N) times (e.g. (height + N - 1) // N) before cropping to frame_height rows, with the ramps frame_width wide (%s): a smaller count leaves the frame short for heights that N does not divide" % (found or "shape not recognised"), by="np.repeat(ramps, ceil(height / N), axis=0)[:height]")
+
+
+def rule_axes(res, m):
+    """sprite generators: in every picture[..] / sprite[..] subscript of the blit, the first (row) axis is bounded only
+    by quantities derived from the frame height and the sprite array's shape[0], the second (column) axis only by the
+    frame width, shape[1] and the horizontal position -- a height used for columns (or the reverse) only shows for
+    non-square sprites, i.e. non-square pixel aspect ratios"""
+    for gname in ("static_sprite", "moving_sprite"):
+        fn = m.funcs.get(gname)
+        vp = fn.args.args[0].arg
+        where = "%s:%s" % (m.rel, gname)
+        roots = {}
+
+        def add(name, rs):
+            roots.setdefault(name, set()).update(rs)
+
+        def roots_of(e):
+            out = set()
+            for x in ast.walk(e):
+                if isinstance(x, ast.Name) and x.id in roots:
+                    out |= roots[x.id]
+            return out
+
+        # seeds: frame sizes and the unpacked shape of the sprite array
+        changed = True
+        seeded = False
+        for a in ast.walk(fn):
+            if isinstance(a, ast.Assign) and isinstance(a.targets[0], ast.Name) and isinstance(a.value, ast.Subscript) and dotted(a.value.value) == vp and const_str(a.value.slice) in ("frame_width", "frame_height"):
+                add(a.targets[0].id, {"W" if const_str(a.value.slice) == "frame_width" else "H"})
+            if isinstance(a, ast.Assign) and isinstance(a.targets[0], ast.Tuple):
+                v = a.value
+                base = v.value if isinstance(v, ast.Subscript) else v
+                if isinstance(base, ast.Attribute) and base.attr == "shape":
+                    for i, t in enumerate(a.targets[0].elts[:2]):
+                        if isinstance(t, ast.Name):
+                            add(t.id, {"H" if i == 0 else "W"})
+                            seeded = True
+        # horizontal position: loop targets of moving_sprite
+        for l in ast.walk(fn):
+            if isinstance(l, ast.For) and isinstance(l.target, ast.Name):
+                add(l.target.id, {"W"})
+        for _ in range(6):
+            for a in ast.walk(fn):
+                if isinstance(a, ast.Assign) and isinstance(a.targets[0], ast.Name) and not (isinstance(a.value, ast.Subscript) and dotted(a.value.value) == vp):
+                    add(a.targets[0].id, roots_of(a.value))
+                elif isinstance(a, ast.AugAssign) and isinstance(a.target, ast.Name):
+                    add(a.target.id, roots_of(a.value))
+        bad = []
+        n_sub = 0
+        for sub in ast.walk(fn):
+            if isinstance(sub, ast.Subscript) and isinstance(sub.slice, ast.Tuple) and len(sub.slice.elts) == 3 and dotted(sub.value) in ("picture", "sprite"):
+                n_sub += 1
+                r0, r1 = roots_of(sub.slice.elts[0]), roots_of(sub.slice.elts[1])
+                if "W" in r0:
+                    bad.append("row bounds of `%s` derive from a width" % short(sub, 50))
+                if "H" in r1:
+                    bad.append("column bounds of `%s` derive from a height" % short(sub, 50))
+        res.check(seeded and n_sub >= 2 and not bad, "C22.g", "%s:blit-axes" % gname, where, "the sprite is copied with mixed-up axes (%s): the crop then exceeds one of the arrays whenever the sprite is not square (non-square pixel aspect ratios), and the generator yields nothing" % ("; ".join(bad) or "shape unpacking / blit not recognised"), by="rows bounded by heights, columns by widths and the horizontal position")
